@@ -84,7 +84,8 @@ def run_results(ctx, want: str):
     streams = [((), n_main)]
     if want == "C01":
         streams += [(("cond_fragment",), n_exotic), (("foreign_cond",), n_exotic)]
-    scs = []
+    from .k1_results import corpus_scenarios
+    scs = corpus_scenarios()
     for si, (feats, n) in enumerate(streams):
         for i in range(n):
             try:
@@ -191,6 +192,8 @@ def finding_class(g, mp, opname, path):
         return "F27-unmerged-composite-field"
     if nested_subtype_spread(g):
         return "F30-subtype-spread-inside-abstract-fragment"
+    if "corpus" in g.sc.features:
+        return None
     if "cond_fragment" in g.sc.features:
         return "F3-conditional-fragment"
     if "foreign_cond" in g.sc.features:
